@@ -141,7 +141,9 @@ Definition c_shs (c : ctx) (s : list (nat * hfault)) : ctx :=
 (* ---- the object worker thread: constructor, release ------------------------------------------ *)
 (* _RpcThread.run end: `try: rpc_object.release_rpc_object() except BaseException: log`; then the thread
    ends.  A task runner's release step stops and joins its _TaskThread (the [tasks] table only tells which
-   live objects own one). *)
+   live objects own one).  That this step RETURNS is an assumption of this model, made explicit and proved for every
+   population of tasks in TaskPop.v (theorem C12_task_population_stops) under the hypothesis "a task woken with its
+   stop flag set ends" = property C11 + tasks block only in QMI's stoppable waits. *)
 Definition release (o : nat) (w : world) : res :=
   let w' := mkW (md w) (vr w) (cur w) (reg w) (nextoid w) (nextcid w) (nexth w) (rel w ++ [o]) (relfail w)
                 (tasks w) (hruns w) (proxies w) (created w) (leaked w) (lrpc w) (lev w) (lport w) (ludp w) in
